@@ -22,7 +22,10 @@ def configs(tier):
 
     # (nhdr = 3: the entity supplies a repeated header field, two Content-Language values)
     ents_q = [("none", False, 0), ("strong", True, 2), ("weak", True, 1), ("comma", False, 3)]
-    ents_t = list(itertools.product(["none", "strong", "weak", "comma"], [False, True], [0, 1, 2, 3]))
+    # thorough: every ETag kind with and without a modification time, every header count with
+    # every ETag kind at least once (the full 4 x 2 x 4 product is ~8 h of serve-level instances)
+    ents_t = [("none", False, 0), ("none", True, 1), ("strong", True, 2), ("strong", False, 3),
+              ("weak", True, 1), ("weak", False, 2), ("comma", False, 3), ("comma", True, 0)]
     ents = ents_q if tier == "quick" else ents_t
     for m in ("GET", "HEAD"):
         for e, mt, nh in ents:
